@@ -3,6 +3,7 @@ mod catalogue_gen;
 mod common;
 mod consumers;
 mod creds;
+mod journal;
 mod msgs;
 mod node;
 mod partlog;
@@ -28,6 +29,8 @@ fn dispatch_worker(wa: WorkerArgs) -> i32 {
         "catalogue" => worker_main(&catalogue::Catalogue, wa),
         "wire" => worker_main(&wire::Wire, wa),
         "creds" => worker_main(&creds::Creds, wa),
+        "journal-tamper" => worker_main(&journal::Tamper, wa),
+        "journal-sched" => worker_main(&journal::Sched, wa),
         "permrules" => worker_main(&perms::PermRules, wa),
         "authgate" => worker_main(&perms::AuthGate, wa),
         "permhist" => worker_main(&perms::PermHist, wa),
@@ -47,6 +50,8 @@ fn dispatch_replay(check: &str, case: &Value, p: &Params) -> common::Outcome {
         "catalogue" => replay_case(&catalogue::Catalogue, case, p),
         "wire" => replay_case(&wire::Wire, case, p),
         "creds" => replay_case(&creds::Creds, case, p),
+        "journal-tamper" => replay_case(&journal::Tamper, case, p),
+        "journal-sched" => replay_case(&journal::Sched, case, p),
         "permrules" => replay_case(&perms::PermRules, case, p),
         "authgate" => replay_case(&perms::AuthGate, case, p),
         "permhist" => replay_case(&perms::PermHist, case, p),
